@@ -29,11 +29,13 @@ ATOL = 1e-11
 RULE = ('periodic bases of every (order 2..6, continuity 0..p-2), minimum sizes, uniform and non-uniform, affine placement; curves, '
         'surfaces and volumes periodic in any subset of directions, rational or not; parameters: knots, span interiors, seam, '
         'start + mT ± 2^-20 T for m in -3..5; round trip split(start)+make_periodic(k) for every (p,k); lower_periodic to every '
-        'k\' in -1..k and raising; make_periodic error branches; constructor: valid, mismatching, and accepted-but-not-periodic '
+        'k\' in -1..k and raising; from-LEFT rows / derivatives (above=False) at seam and interior knots shifted by m in {-2,-1,2,3} periods; make_periodic error branches; constructor: valid, mismatching, and accepted-but-not-periodic '
         'vectors.  non-trivial = the property makes a claim (everything but pure error branches).')
 REQUIRED_TAGS = ['eval', 'eval:shifted', 'eval:seam', 'eval:offset', 'seam', 'seam:k>=2', 'roundtrip', 'roundtrip:k>=2', 'roundtrip:k<=1',
                  'roundtrip:dir>0', 'lower', 'lower:to-open', 'lower:raise', 'make_periodic', 'make_periodic:error', 'ctor',
-                 'ctor:rejected', 'ctor:accepted-invalid', 'rational', 'pardim=2', 'pardim=3', 'periodic-small', 'p=6']
+                 'ctor:rejected', 'ctor:accepted-invalid', 'rational', 'pardim=2', 'pardim=3', 'periodic-small', 'p=6',
+                 'leftshift', 'leftshift:seam-start', 'leftshift:seam-end', 'leftshift:interior-knot', 'leftshift:m<0', 'leftshift:m>=2',
+                 'leftshift:d>=1', 'leftshift:pardim>1']
 
 
 # ---------------------------------------------------------------------------------------------
@@ -105,6 +107,22 @@ def _eval_spec(rng, o):
     return {'kind': 'eval', 'obj': o, 'params': params, 'base': base, 'what': sorted(what)}
 
 
+def _leftshift_specs(rng, o, d, count):
+    """From-LEFT evaluation at seam / interior knots shifted by whole periods (one (t, m, order) per
+    spec for the basis-row correspondence; the oracle sweeps all of them)."""
+    b = o['bases'][d]
+    info = gen.basis_info(b)
+    inner = [x for x in gen.distinct_knots(b) if info['start'] < x < info['end']]
+    out = []
+    whats = ['start', 'end'] + (['inner'] if inner else [])
+    for i in range(count):
+        w = whats[i % len(whats)]
+        t = {'start': info['start'], 'end': info['end']}.get(w) if w != 'inner' else rng.choice(inner)
+        out.append({'kind': 'leftshift', 'obj': o, 'dir': d, 't': t, 'at': w, 'm': rng.choice([-2, -1, 2, 3]),
+                    'd': rng.randint(0, max(0, min(info['k'], info['p'] - 1)))})
+    return out
+
+
 def _invalid_periodic(rng):
     """Knot vectors the constructor accepts (it compares only p+k-1 spacings) although the seam
     multiplicity does not fit the declared continuity / the ghost knots do not repeat the period."""
@@ -154,6 +172,8 @@ def generate(rng, tier):
                 o = _periodic_object(rng, 1, [0], pk=(p, k), small=small, uniform=(r % 2 == 1 and not small))
                 specs.append(_eval_spec(rng, o))
                 specs.append({'kind': 'seam', 'obj': o, 'dir': 0})
+                if not small or r == 0:
+                    specs += _leftshift_specs(rng, o, 0, 3 if not small else 2)
                 specs.append({'kind': 'roundtrip', 'obj': o, 'dir': 0, 'k': k})
                 for target in ([-1, k - 1] if quick else range(-1, k)):
                     if target < k:
@@ -172,6 +192,7 @@ def generate(rng, tier):
         d = rng.choice(sub)
         kk = o['bases'][d]['periodic']
         specs.append({'kind': 'seam', 'obj': o, 'dir': d})
+        specs += _leftshift_specs(rng, o, d, 2)
         specs.append({'kind': 'roundtrip', 'obj': o, 'dir': d, 'k': kk})
         specs.append({'kind': 'lower', 'obj': o, 'dir': d, 'target': rng.randint(-1, max(-1, kk - 1))})
     # --- make_periodic on arbitrary open objects + error branches
@@ -217,6 +238,10 @@ def model_line(s):
     if k == 'seam':
         b = s['obj']['bases'][s['dir']]
         return line('c08_basis', b['order'], b['knots'], b['periodic'], gen.TOL)
+    if k == 'leftshift':
+        b = s['obj']['bases'][s['dir']]
+        info = gen.basis_info(b)
+        return line('basis_eval', gen.enc_basis(b), gen.TOL, s['t'] + s['m'] * (info['end'] - info['start']), s['d'], False)
     if k == 'roundtrip':
         return line('c08_roundtrip', gen.enc_object(s['obj']), gen.TOL, s['k'], s['dir'])
     if k == 'lower':
@@ -246,6 +271,16 @@ def run_impl(sp, s):
     if k == 'seam':
         b = gen.mk_basis(sp, s['obj']['bases'][s['dir']])
         return [int(b.order), [float(x) for x in b.knots], int(b.periodic)]
+    if k == 'leftshift':
+        bs = s['obj']['bases'][s['dir']]
+        info = gen.basis_info(bs)
+        b = gen.mk_basis(sp, bs)
+        t = s['t'] + s['m'] * (info['end'] - info['start'])
+        dense = b.evaluate(t, s['d'], False)
+        if s['d'] >= bs['order']:
+            return [dense[0].tolist(), [], []]
+        N = b.evaluate(t, s['d'], False, sparse=True)
+        return [dense[0].tolist(), N.data.tolist(), [int(i) for i in N.indices]]
     if k == 'roundtrip':
         return gen.obj_observables(_roundtrip(sp, s))
     if k == 'lower':
@@ -393,6 +428,75 @@ def _raw_hom(ex, u, der, rights):
     return out
 
 
+def check_left_shift(sp, ospec, d):
+    """From-left evaluation is invariant under shifts by whole periods: at the seam (start and end)
+    and at every interior knot of direction d, for m in {-2,-1,2,3}: `basis.evaluate(t + mT, j,
+    from_right=False)` and `obj.derivative(.., t + mT, .., d=j, above=False)` for j = 0..k equal the
+    unshifted from-left result (the from-left value at `start` is the one at the domain end), and the
+    basis rows equal the exact definition / sum to one."""
+    o = gen.mk_object(sp, ospec)
+    pd = len(ospec['bases'])
+    bs = ospec['bases'][d]
+    info = gen.basis_info(bs)
+    T = info['end'] - info['start']
+    k = info['k']
+    b = gen.mk_basis(sp, bs)
+    others = _mid_params(ospec, d)
+    rational = ospec['rational']
+    jmax = k
+    if rational:
+        jmax = min(k, 3) if pd == 1 else min(k, 1)
+    pts = [info['start'], info['end']] + [x for x in gen.distinct_knots(bs) if info['start'] < x < info['end']]
+    fails = []
+
+    def deriv(t, j):
+        u = list(others)
+        u[d] = t
+        if pd == 1:
+            return np.asarray(o.derivative(u[0], d=j, above=False), dtype=float).reshape(-1)
+        dd = tuple(j if i == d else 0 for i in range(pd))
+        return np.asarray(o.derivative(*u, d=dd, above=[i != d for i in range(pd)]), dtype=float).reshape(-1)
+
+    for t in pts:
+        tref = info['end'] if t == info['start'] else t
+        for j in range(0, k + 1):
+            try:
+                rref = np.asarray(b.evaluate(tref, j, False), dtype=float).reshape(-1)
+            except Exception as e:  # noqa: BLE001
+                return ['basis.evaluate(%r, %d, from_right=False) raised %s' % (tref, j, type(e).__name__)]
+            want = exact.basis_row(bs, t, j, False)
+            if not exact.close(rref, want, 1e-8, 1e-9 * max(1.0, float(np.max(np.abs(rref))))):
+                return ['from-left basis row of order %d at %r differs from the definition' % (j, tref)]
+            dref = None
+            if j <= jmax:
+                try:
+                    dref = deriv(tref, j)
+                except Exception as e:  # noqa: BLE001
+                    return ['derivative(%r, d=%d, above=False) raised %s: %s' % (tref, j, type(e).__name__, e)]
+            for m in (-2, -1, 2, 3):
+                ts = t + m * T
+                try:
+                    row = np.asarray(b.evaluate(ts, j, False), dtype=float).reshape(-1)
+                except Exception as e:  # noqa: BLE001
+                    return ['basis.evaluate(%r, %d, from_right=False) raised %s' % (ts, j, type(e).__name__)]
+                sc = max(1.0, float(np.max(np.abs(rref))))
+                if row.shape != rref.shape or np.max(np.abs(row - rref)) > 1e-8 * sc:
+                    return ['direction %d: from-left basis row (derivative order %d) at t=%r%+d periods is %r, at the unshifted parameter it is %r' % (
+                        d, j, t, m, row.tolist(), rref.tolist())]
+                if j == 0 and abs(row.sum() - 1.0) > 1e-9:
+                    return ['from-left basis row at t=%r%+d periods sums to %r' % (t, m, float(row.sum()))]
+                if dref is not None:
+                    try:
+                        dv = deriv(ts, j)
+                    except Exception as e:  # noqa: BLE001
+                        return ['derivative(%r, d=%d, above=False) raised %s: %s' % (ts, j, type(e).__name__, e)]
+                    sc = max(1.0, float(np.max(np.abs(dref))))
+                    if dv.shape != dref.shape or not np.all(np.isfinite(dv)) or np.max(np.abs(dv - dref)) > 1e-7 * sc:
+                        return ['direction %d: derivative of order %d from below at t=%r%+d periods is %r, unshifted it is %r' % (
+                            d, j, t, m, dv.tolist(), dref.tolist())]
+    return fails
+
+
 def _literal_same(obj, ospec, d):
     fails = []
     want_k = np.array(ospec['bases'][d]['knots'], dtype=float)
@@ -447,6 +551,8 @@ def oracle(sp, s):
         return []
     if k == 'seam':
         return check_periodicity(sp, s['obj'], s['dir']) + check_seam(sp, s['obj'], s['dir'])
+    if k == 'leftshift':
+        return check_left_shift(sp, s['obj'], s['dir'])
     if k == 'roundtrip':
         if s['k'] != s['obj']['bases'][s['dir']]['periodic']:
             return []
@@ -546,6 +652,13 @@ def tags(s, res):
                     out.append('periodic-small')
     if k == 'eval':
         out += s['what']
+    elif k == 'leftshift':
+        out.append({'start': 'leftshift:seam-start', 'end': 'leftshift:seam-end', 'inner': 'leftshift:interior-knot'}[s['at']])
+        out.append('leftshift:m<0' if s['m'] < 0 else 'leftshift:m>=2')
+        if s['d'] >= 1:
+            out.append('leftshift:d>=1')
+        if len(s['obj']['bases']) > 1:
+            out.append('leftshift:pardim>1')
     elif k == 'seam':
         if s['obj']['bases'][s['dir']]['periodic'] >= 2:
             out.append('seam:k>=2')
